@@ -1,6 +1,7 @@
 From Coq Require Extraction ExtrOcamlBasic.
 From Coq Require Import NArith.
-From GV Require Import Common.Outcome C18.Model.
+From GV Require Import Common.Outcome C18.Model C18.InspModel.
 Extraction Language OCaml.
 (* N.succ only so that the shared glue (ocaml/common/conv.ml) finds the types positive / n *)
-Extraction "model.ml" trace init N.succ.
+(* trace_i with a verdict that accepts everything is trace of C18/Model.v (C18_run_i_is_run) *)
+Extraction "model.ml" trace_i init_i N.succ.
